@@ -147,6 +147,59 @@ def deep_recursion(R, tier):
                 R.counterexample('deep-recursion', 'exception:' + type(e).__name__, {'family': name, 'grammar': desc, 'depth': d}, 'a result', str(e)[:100])
 
 
+def inherited_nesting(R, tier):
+    """a deeply nested rule of a PARENT grammar used through a grammar that extends it: the layers stay transparent, the
+    references and literals inside stay late-bound (the child's override, the child's ignore patterns), at every depth"""
+    sys.path.insert(0, core.REPO)
+    from sourcer import Grammar
+    depths = [3, 12, 15, 16, 17, 18, 19, 20, 25, 40, 60] if tier == 'quick' else list(range(1, 45)) + [60, 90]
+    kinds = {'seq': lambda e: f'[{e}]', 'seq+choice': lambda e: f'[Fail("no") | {e}]', 'seq+opt': lambda e: f'[Opt({e})]', 'group': lambda e: f'(({e}))'}
+    n = 0
+    for kname, wrapf in kinds.items():
+        for d in depths:
+            n += 1
+            inner = 'X'
+            for _ in range(d):
+                inner = wrapf(inner)
+
+            def expect(v, d=d, kname=kname):
+                for _ in range(d):
+                    v = v if kname == 'group' else [v]
+                return v
+            for variant in ('override', 'ignore'):
+                tag = f'c17i{n}{variant[0]}'
+                if variant == 'override':
+                    base = f'grammar {tag}a\nstart = {inner}\nX = "a"\n'
+                    child = f'grammar {tag}b extends {tag}a\noverride X = "b"\n'
+                    cases = [('b', expect('b')), ('a', 'error')]
+                else:
+                    base = f'grammar {tag}a\nignore Space = / +/\nstart = {inner} << "."\nX = "a"\n'
+                    child = f'grammar {tag}b extends {tag}a\nignore Note = /#[a-z]*/\n'
+                    cases = [(' a#note .', expect('a')), ('a.', expect('a')), ('a #n#m .', expect('a'))]
+                R.count('inherited-nesting', (kname, d, variant), nontrivial=True)
+                try:
+                    Grammar(base)
+                    g = Grammar(child)
+                except RecursionError:
+                    continue
+                except Exception as e:          # noqa
+                    R.counterexample('inherited-nesting', 'grammar-construction:' + type(e).__name__, {'base': base[:200], 'child': child, 'depth': d}, 'two modules', str(e)[:120])
+                    continue
+                for text, want in cases:
+                    try:
+                        got = g.parse(text)
+                    except g.InputError:
+                        got = 'error'
+                    except Exception as e:      # noqa
+                        got = 'exception ' + type(e).__name__
+                    if got != want:
+                        R.counterexample('inherited-nesting', 'nesting-changes-meaning-of-an-inherited-rule',
+                                         {'wrappers': kname, 'depth': d, 'variant': variant, 'child': child, 'text': text}, repr(want)[:120], repr(got)[:120])
+                        break
+                else:
+                    R.traces += 1
+
+
 INFO = {}
 
 
@@ -186,6 +239,7 @@ def run(R):
                                          'the correspondingly wrapped value', ix)
                         break
     deep_recursion(R, R.tier)
+    inherited_nesting(R, R.tier)
     R.assumptions += ['the Python/C stack is not in the model: absence of RecursionError is observed on the implementation only',
                       'block accounting of outsourcer.CodeBuilder (max 20 blocks) is not modelled: the theorem holds for every placement of helper functions']
     return R.finish(
